@@ -40,35 +40,35 @@ theorem PosDz.of_inv {cs : List (Cell α)} (h : ∀ x ∈ cs, Cell.Inv x) : PosD
 
 /-! ### one extraction step -/
 
-theorem takeCell_frame (cl : Bool) (z : α) (x : Cell α) (d : α) :
-    cellFrame (takeCell cl z x d).cell = cellFrame x := by
+theorem takeCell_frame (z : α) (x : Cell α) (d : α) :
+    cellFrame (takeCell z x d).cell = cellFrame x := by
   unfold takeCell; simp only []; split_ifs <;> rfl
 
-theorem takeCell_dem (cl : Bool) (z : α) (x : Cell α) (d : α) :
-    (takeCell cl z x d).dem = d - (takeCell cl z x d).taken := by
+theorem takeCell_dem (z : α) (x : Cell α) (d : α) :
+    (takeCell z x d).dem = d - (takeCell z x d).taken := by
   unfold takeCell; simp only []; split_ifs <;> simp
 
-theorem takeCell_dem_nonneg (cl : Bool) (z : α) (x : Cell α) (d : α) :
-    0 ≤ (takeCell cl z x d).dem := by
+theorem takeCell_dem_nonneg (z : α) (x : Cell α) (d : α) :
+    0 ≤ (takeCell z x d).dem := by
   unfold takeCell; simp only []
   split_ifs with h1 h2 h2
   all_goals first | exact le_refl _ | (simp only []; linarith [not_le.mp ‹¬ _ ≤ _›])
 
-theorem takeCell_taken_le (cl : Bool) (z : α) (x : Cell α) (d : α) :
-    (takeCell cl z x d).taken ≤ d := by
-  have := takeCell_dem_nonneg cl z x d
+theorem takeCell_taken_le (z : α) (x : Cell α) (d : α) :
+    (takeCell z x d).taken ≤ d := by
+  have := takeCell_dem_nonneg z x d
   rw [takeCell_dem] at this; linarith
 
-theorem takeCell_water (cl : Bool) (z : α) (x : Cell α) (d : α) (hdz : 0 < x.c.dz) :
-    (takeCell cl z x d).cell.water + (takeCell cl z x d).taken = x.water := by
+theorem takeCell_water (z : α) (x : Cell α) (d : α) (hdz : 0 < x.c.dz) :
+    (takeCell z x d).cell.water + (takeCell z x d).taken = x.water := by
   have h : x.c.dz ≠ 0 := ne_of_gt hdz
   unfold takeCell Cell.water; simp only []
   split_ifs <;> (simp only []; field_simp; ring)
 
-/-- with the stage-1 clamp a positive demand never takes a negative amount -/
-theorem takeCell_clamp_nonneg (z : α) (x : Cell α) (d : α) (hd : 0 < d) :
-    0 ≤ (takeCell true z x d).taken := by
-  unfold takeCell; simp only [true_and]
+/-- thanks to the clamp `AvW ≥ 0` a positive demand never takes a negative amount -/
+theorem takeCell_taken_nonneg (z : α) (x : Cell α) (d : α) (hd : 0 < d) :
+    0 ≤ (takeCell z x d).taken := by
+  unfold takeCell; simp only []
   split_ifs with h1 h2 h2 <;> simp only []
   · exact hd.le
   · exact le_refl _
@@ -83,9 +83,9 @@ theorem evapFactor_le_one (z : α) (c : Comp α) (hdz : 0 < c.dz) : evapFactor z
   · exact le_refl _
 
 /-- what is taken never exceeds the water above air dryness -/
-theorem takeCell_taken_le_avail (cl : Bool) (z : α) (x : Cell α) (d : α) (hdz : 0 < x.c.dz)
+theorem takeCell_taken_le_avail (z : α) (x : Cell α) (d : α) (hdz : 0 < x.c.dz)
     (hlo : x.c.thDry ≤ x.th) (hd : 0 ≤ d) :
-    (takeCell cl z x d).taken ≤ 1000 * x.th * x.c.dz - 1000 * x.c.thDry * x.c.dz := by
+    (takeCell z x d).taken ≤ 1000 * x.th * x.c.dz - 1000 * x.c.thDry * x.c.dz := by
   have hf := evapFactor_le_one z x.c hdz
   have hw : 0 ≤ 1000 * x.th * x.c.dz - 1000 * x.c.thDry * x.c.dz := by
     have : 0 ≤ (x.th - x.c.thDry) * x.c.dz := mul_nonneg (sub_nonneg.mpr hlo) hdz.le
@@ -95,18 +95,18 @@ theorem takeCell_taken_le_avail (cl : Bool) (z : α) (x : Cell α) (d : α) (hdz
   unfold takeCell; simp only []
   split_ifs with h1 h2 h2 <;> simp only [] <;> linarith
 
-theorem takeCell_inv (cl : Bool) (z : α) (x : Cell α) (d : α) (hx : x.Inv) (hd : 0 ≤ d)
-    (ht : 0 ≤ (takeCell cl z x d).taken) : (takeCell cl z x d).cell.Inv := by
+theorem takeCell_inv (z : α) (x : Cell α) (d : α) (hx : x.Inv) (hd : 0 ≤ d)
+    (ht : 0 ≤ (takeCell z x d).taken) : (takeCell z x d).cell.Inv := by
   have hdz := hx.wf.dz_pos
-  have hw := takeCell_water cl z x d hdz
-  have ha := takeCell_taken_le_avail cl z x d hdz hx.th_lo hd
-  have hfr := takeCell_frame cl z x d
-  have hc : (takeCell cl z x d).cell.c = x.c := congrArg Prod.fst hfr
-  have hfc : (takeCell cl z x d).cell.fcAdj = x.fcAdj := congrArg (fun p => p.2.1) hfr
+  have hw := takeCell_water z x d hdz
+  have ha := takeCell_taken_le_avail z x d hdz hx.th_lo hd
+  have hfr := takeCell_frame z x d
+  have hc : (takeCell z x d).cell.c = x.c := congrArg Prod.fst hfr
+  have hfc : (takeCell z x d).cell.fcAdj = x.fcAdj := congrArg (fun p => p.2.1) hfr
   unfold Cell.water at hw
   rw [hc] at hw
-  have h1 : (takeCell cl z x d).cell.th * (1000 * x.c.dz) ≤ x.th * (1000 * x.c.dz) := by linarith
-  have h2 : x.c.thDry * (1000 * x.c.dz) ≤ (takeCell cl z x d).cell.th * (1000 * x.c.dz) := by
+  have h1 : (takeCell z x d).cell.th * (1000 * x.c.dz) ≤ x.th * (1000 * x.c.dz) := by linarith
+  have h2 : x.c.thDry * (1000 * x.c.dz) ≤ (takeCell z x d).cell.th * (1000 * x.c.dz) := by
     linarith
   have hp : (0:α) < 1000 * x.c.dz := by positivity
   have h1' := le_of_mul_le_mul_right h1 hp
@@ -117,11 +117,11 @@ theorem takeCell_inv (cl : Bool) (z : α) (x : Cell α) (d : α) (hx : x.Inv) (h
           fc_lo := by rw [hc, hfc]; exact hx.fc_lo
           fc_hi := by rw [hc, hfc]; exact hx.fc_hi }
 
-/-! ### the extraction loop (stage 1 with `cl = true`, stage 2 with `cl = false`) -/
+/-! ### the extraction loop (stage 1 and stage 2) -/
 
-theorem extractLoop_spec (cl : Bool) (z : α) (n : Nat) :
+theorem extractLoop_spec (z : α) (n : Nat) :
     ∀ (cs : List (Cell α)) (a : ExtAcc α) (cs' : List (Cell α)) (a' : ExtAcc α),
-    extractLoop cl z n cs a = .ok (cs', a') → PosDz cs →
+    extractLoop z n cs a = .ok (cs', a') → PosDz cs →
     cs'.map cellFrame = cs.map cellFrame ∧
     storage cs' + a'.esAct = storage cs + a.esAct ∧
     a'.esAct + a'.toExt = a.esAct + a.toExt ∧
@@ -145,7 +145,7 @@ theorem extractLoop_spec (cl : Bool) (z : α) (n : Nat) :
         simp only [] at h
         have hx : 0 < x.c.dz := hp x (List.mem_cons_self)
         have hxs : PosDz xs := fun y hy => hp y (List.mem_cons_of_mem _ hy)
-        generalize hr : extractLoop cl z n xs _ = r at h
+        generalize hr : extractLoop z n xs _ = r at h
         cases r with
         | error e => simp at h
         | ok v =>
@@ -153,9 +153,9 @@ theorem extractLoop_spec (cl : Bool) (z : α) (n : Nat) :
           simp only [Except.ok.injEq, Prod.mk.injEq] at h
           obtain ⟨rfl, rfl⟩ := h
           obtain ⟨i1, i2, i3, i4, i5, i6⟩ := ih _ _ _ _ hr hxs
-          have hw := takeCell_water cl z x a.dem hx
-          have hdm := takeCell_dem cl z x a.dem
-          have hnn := takeCell_dem_nonneg cl z x a.dem
+          have hw := takeCell_water z x a.dem hx
+          have hdm := takeCell_dem z x a.dem
+          have hnn := takeCell_dem_nonneg z x a.dem
           simp only [] at i2 i3 i4 i5 i6
           refine ⟨?_, ?_, ?_, ?_, ?_, ?_⟩
           · simp only [List.map_cons, i1, takeCell_frame]
@@ -170,9 +170,9 @@ theorem extractLoop_spec (cl : Bool) (z : α) (n : Nat) :
 
 /-- if the ghost flag is still clear at the end, no step took a negative amount: `EsAct` grew
 and the cell invariant is preserved -/
-theorem extractLoop_of_noNeg (cl : Bool) (z : α) (n : Nat) :
+theorem extractLoop_of_noNeg (z : α) (n : Nat) :
     ∀ (cs : List (Cell α)) (a : ExtAcc α) (cs' : List (Cell α)) (a' : ExtAcc α),
-    extractLoop cl z n cs a = .ok (cs', a') → a'.neg = false →
+    extractLoop z n cs a = .ok (cs', a') → a'.neg = false →
     a.neg = false ∧ (PosDz cs → a.esAct ≤ a'.esAct) ∧
     ((∀ x ∈ cs, Cell.Inv x) → ∀ x ∈ cs', Cell.Inv x) := by
   induction n with
@@ -190,7 +190,7 @@ theorem extractLoop_of_noNeg (cl : Bool) (z : α) (n : Nat) :
       | nil => simp at h
       | cons x xs =>
         simp only [] at h
-        generalize hr : extractLoop cl z n xs _ = r at h
+        generalize hr : extractLoop z n xs _ = r at h
         cases r with
         | error e => simp at h
         | ok v =>
@@ -207,16 +207,16 @@ theorem extractLoop_of_noNeg (cl : Bool) (z : α) (n : Nat) :
             linarith [j1.2]
           · intro hinv y hy
             rcases List.mem_cons.mp hy with rfl | hy
-            · exact takeCell_inv cl z x a.dem (hinv x List.mem_cons_self) hd.le j1.2
+            · exact takeCell_inv z x a.dem (hinv x List.mem_cons_self) hd.le j1.2
             · exact j3 (fun w hw => hinv w (List.mem_cons_of_mem _ hw)) y hy
     · simp only [hd, if_false, Except.ok.injEq, Prod.mk.injEq] at h
       obtain ⟨rfl, rfl⟩ := h
       exact ⟨hn, fun _ => le_refl _, id⟩
 
-/-- stage 1 (clamped) never sets the ghost flag -/
-theorem extractLoop_clamp_noNeg (z : α) (n : Nat) :
+/-- the (clamped) loop never sets the ghost flag -/
+theorem extractLoop_noNeg (z : α) (n : Nat) :
     ∀ (cs : List (Cell α)) (a : ExtAcc α) (cs' : List (Cell α)) (a' : ExtAcc α),
-    extractLoop true z n cs a = .ok (cs', a') → a.neg = false → a'.neg = false := by
+    extractLoop z n cs a = .ok (cs', a') → a.neg = false → a'.neg = false := by
   induction n with
   | zero =>
     intro cs a cs' a' h hn
@@ -232,7 +232,7 @@ theorem extractLoop_clamp_noNeg (z : α) (n : Nat) :
       | nil => simp at h
       | cons x xs =>
         simp only [] at h
-        generalize hr : extractLoop true z n xs _ = r at h
+        generalize hr : extractLoop z n xs _ = r at h
         cases r with
         | error e => simp at h
         | ok v =>
@@ -240,15 +240,15 @@ theorem extractLoop_clamp_noNeg (z : α) (n : Nat) :
           simp only [Except.ok.injEq, Prod.mk.injEq] at h
           obtain ⟨rfl, rfl⟩ := h
           apply ih _ _ _ _ hr
-          have := takeCell_clamp_nonneg z x a.dem hd
+          have := takeCell_taken_nonneg z x a.dem hd
           simp only [hn, Bool.false_or, decide_eq_false_iff_not, not_lt]
           exact this
     · simp only [hd, if_false, Except.ok.injEq, Prod.mk.injEq] at h
       obtain ⟨rfl, rfl⟩ := h
       exact hn
 
-theorem extractLoop_nodem (cl : Bool) (z : α) (n : Nat) (cs : List (Cell α)) (a : ExtAcc α)
-    (hd : a.dem ≤ 0) : extractLoop cl z n cs a = .ok (cs, a) := by
+theorem extractLoop_nodem (z : α) (n : Nat) (cs : List (Cell α)) (a : ExtAcc α)
+    (hd : a.dem ≤ 0) : extractLoop z n cs a = .ok (cs, a) := by
   cases n with
   | zero => rfl
   | succ n => unfold extractLoop; simp only [not_lt.mpr hd, if_false]
@@ -268,14 +268,14 @@ theorem evapStage1_spec (F : Fn α) (P : EvapParams α) (cells : List (Cell α))
   simp only [] at h
   by_cases h1 : 0 < pmin (esPot - esAct) s.wSurf
   · simp only [h1, if_true] at h
-    generalize hr : extractLoop true P.zMin _ cells _ = r at h
+    generalize hr : extractLoop P.zMin _ cells _ = r at h
     cases r with
     | error e => simp at h
     | ok v =>
       obtain ⟨cs1, a1⟩ := v
-      obtain ⟨i1, i2, i3, i4, i5, _⟩ := extractLoop_spec _ _ _ _ _ _ _ hr hp
-      have hn := extractLoop_clamp_noNeg _ _ _ _ _ _ hr rfl
-      obtain ⟨_, j2, j3⟩ := extractLoop_of_noNeg _ _ _ _ _ _ _ hr hn
+      obtain ⟨i1, i2, i3, i4, i5, _⟩ := extractLoop_spec _ _ _ _ _ _ hr hp
+      have hn := extractLoop_noNeg _ _ _ _ _ _ hr rfl
+      obtain ⟨_, j2, j3⟩ := extractLoop_of_noNeg _ _ _ _ _ _ hr hn
       simp only [] at i2 i3 i4 i5 j2
       have hmin : pmin (esPot - esAct) s.wSurf ≤ esPot - esAct := by
         rw [pmin_eq]; exact min_le_left _ _
@@ -325,7 +325,7 @@ theorem stage2Step_spec (F : Fn α) (P : EvapParams α) (w2 edt : α) (st st' : 
     | ok zw =>
       obtain ⟨z, wrel⟩ := zw
       simp only [] at h
-      generalize hr : extractLoop false z _ st.cells _ = r at h
+      generalize hr : extractLoop z _ st.cells _ = r at h
       cases r with
       | error e => simp at h
       | ok v =>
@@ -333,7 +333,7 @@ theorem stage2Step_spec (F : Fn α) (P : EvapParams α) (w2 edt : α) (st st' : 
         simp only [Except.ok.injEq] at h
         subst h
         simp only []
-        obtain ⟨i1, i2, i3, i4, i5, i6⟩ := extractLoop_spec _ _ _ _ _ _ _ hr hp
+        obtain ⟨i1, i2, i3, i4, i5, i6⟩ := extractLoop_spec _ _ _ _ _ _ hr hp
         simp only [] at i2 i3 i4 i5 i6
         refine ⟨i1, i2, i3, ?_, i6, ?_⟩
         · intro hedt
@@ -342,7 +342,7 @@ theorem stage2Step_spec (F : Fn α) (P : EvapParams α) (w2 edt : α) (st st' : 
             linarith
           by_cases hd : 0 ≤ krOf F P wrel * edt
           · have := i5 hd; linarith
-          · have hno := extractLoop_nodem false z (countBelow z st.cells + 1 + 1) st.cells
+          · have hno := extractLoop_nodem z (countBelow z st.cells + 1 + 1) st.cells
               { dem := krOf F P wrel * edt, esAct := st.esAct, toExt := st.toExt, neg := st.neg }
               (le_of_lt (not_le.mp hd))
             rw [hno] at hr
@@ -350,7 +350,7 @@ theorem stage2Step_spec (F : Fn α) (P : EvapParams α) (w2 edt : α) (st st' : 
             obtain ⟨_, rfl⟩ := hr
             simp only []; linarith
         · intro hn
-          obtain ⟨j1, j2, j3⟩ := extractLoop_of_noNeg _ _ _ _ _ _ _ hr hn
+          obtain ⟨j1, j2, j3⟩ := extractLoop_of_noNeg _ _ _ _ _ _ hr hn
           exact ⟨j1, j2 hp, j3⟩
 
 theorem stage2Loop_spec (F : Fn α) (P : EvapParams α) (w2 edt : α) (n : Nat) :
@@ -421,17 +421,82 @@ theorem evapStage2_spec (F : Fn α) (P : EvapParams α) (g g' : Stg α)
     subst h
     exact ⟨rfl, rfl, rfl, id, fun hn => ⟨hn, le_refl _, id⟩⟩
 
+/-! since repo fix 9c2fed8 stage 2 clamps `AvW` like stage 1: the ghost flag stays clear -/
+
+theorem stage2Step_noNeg (F : Fn α) (P : EvapParams α) (w2 edt : α) (st st' : SubSt α)
+    (h : stage2Step F P w2 edt st = .ok st') (hn : st.neg = false) : st'.neg = false := by
+  unfold stage2Step at h
+  generalize hw : evapLayerWater st.cells st.evapZ = w at h
+  cases w with
+  | error e => simp at h
+  | ok w =>
+    simp only [] at h
+    generalize hex : (if P.zMin < P.zMax then _ else _ : Except String (α × α)) = ex at h
+    cases ex with
+    | error e => simp at h
+    | ok zw =>
+      obtain ⟨z, wrel⟩ := zw
+      simp only [] at h
+      generalize hr : extractLoop z _ st.cells _ = r at h
+      cases r with
+      | error e => simp at h
+      | ok v =>
+        obtain ⟨cs1, a1⟩ := v
+        simp only [Except.ok.injEq] at h
+        subst h
+        exact extractLoop_noNeg _ _ _ _ _ _ hr hn
+
+theorem stage2Loop_noNeg (F : Fn α) (P : EvapParams α) (w2 edt : α) (n : Nat) :
+    ∀ (st st' : SubSt α), stage2Loop F P w2 edt n st = .ok st' → st.neg = false →
+    st'.neg = false := by
+  induction n with
+  | zero =>
+    intro st st' h hn
+    simp only [stage2Loop, Except.ok.injEq] at h
+    subst h; exact hn
+  | succ n ih =>
+    intro st st' h hn
+    unfold stage2Loop at h
+    generalize hs : stage2Step F P w2 edt st = r at h
+    cases r with
+    | error e => simp at h
+    | ok s1 =>
+      simp only [] at h
+      exact ih s1 st' h (stage2Step_noNeg F P w2 edt st s1 hs hn)
+
+theorem evapStage2_noNeg (F : Fn α) (P : EvapParams α) (g g' : Stg α)
+    (h : evapStage2 F P g = .ok g') (hn : g.neg = false) : g'.neg = false := by
+  unfold evapStage2 at h
+  by_cases h1 : 0 < g.toExt
+  · simp only [h1, if_true] at h
+    by_cases h0 : P.steps = 0
+    · simp [h0] at h
+    · simp only [h0, if_false] at h
+      generalize hr : stage2Loop F P _ _ P.steps _ = r at h
+      cases r with
+      | error e => simp at h
+      | ok st =>
+        simp only [Except.ok.injEq] at h
+        subst h
+        exact stage2Loop_noNeg _ _ _ _ _ _ _ hr hn
+  · simp only [h1, if_false, Except.ok.injEq] at h
+    subst h; exact hn
+
 /-! ### ponded water and the entry point -/
 
 theorem pondEvap_spec (P : EvapParams α) (e p : α) (s : EvapSurf α) :
     (pondEvap P e p s).1 + (pondEvap P e p s).2.1 = p ∧
     ((p ≤ 0 → 0 ≤ e) → 0 ≤ e - (pondEvap P e p s).1) ∧
-    ((e < p → 0 ≤ e) → 0 ≤ (pondEvap P e p s).1) := by
+    ((e < p → 0 ≤ e) → 0 ≤ (pondEvap P e p s).1) ∧
+    (0 ≤ p → 0 ≤ (pondEvap P e p s).2.1 ∧ (0 ≤ e → (pondEvap P e p s).2.1 ≤ p)) := by
   unfold pondEvap
   split_ifs with h1 h2
-  · exact ⟨by simp, fun _ => by simp, fun h => h h2⟩
-  · exact ⟨by simp, fun _ => by simpa using not_lt.mp h2, fun _ => h1.le⟩
-  · exact ⟨by simp, fun h => by simpa using h (not_lt.mp h1), fun _ => le_refl _⟩
+  · exact ⟨by simp, fun _ => by simp, fun h => h h2,
+      fun _ => ⟨by simpa using h2.le, fun he => by simpa using he⟩⟩
+  · exact ⟨by simp, fun _ => by simpa using not_lt.mp h2, fun _ => h1.le,
+      fun hp => ⟨le_refl _, fun _ => hp⟩⟩
+  · exact ⟨by simp, fun h => by simpa using h (not_lt.mp h1), fun _ => le_refl _,
+      fun hp => ⟨hp, fun _ => le_refl _⟩⟩
 
 /-- everything the lemmas below need, in one statement about a successful call -/
 theorem soilEvap_core (F : Fn α) (P : EvapParams α) (S : EvapState α) (cells : List (Cell α))
@@ -442,8 +507,10 @@ theorem soilEvap_core (F : Fn α) (P : EvapParams α) (S : EvapState α) (cells 
     out.epot = out.esPot ∧
     (∃ b, esPotential F P S D = .ok (out.esPot, b)) ∧
     ((S.pond ≤ 0 → 0 ≤ out.esPot) → out.esAct ≤ out.esPot) ∧
-    (out.negTake = false → (out.esPot < S.pond → 0 ≤ out.esPot) → 0 ≤ out.esAct) ∧
-    (out.negTake = false → (∀ x ∈ cells, Cell.Inv x) → ∀ x ∈ out.cells, Cell.Inv x) := by
+    out.negTake = false ∧
+    ((out.esPot < S.pond → 0 ≤ out.esPot) → 0 ≤ out.esAct) ∧
+    ((∀ x ∈ cells, Cell.Inv x) → ∀ x ∈ out.cells, Cell.Inv x) ∧
+    (0 ≤ S.pond → 0 ≤ out.pond ∧ (0 ≤ out.esPot → out.pond ≤ S.pond)) := by
   unfold soilEvaporation at h
   generalize hri : evapReinit F P cells D.tsc S.dap _ = ri at h
   cases ri with
@@ -457,10 +524,10 @@ theorem soilEvap_core (F : Fn α) (P : EvapParams α) (S : EvapState α) (cells 
     | ok eb =>
       obtain ⟨esPot, b2⟩ := eb
       simp only [] at h
-      obtain ⟨q1, q2, q3⟩ := pondEvap_spec P esPot S.pond (evapRefresh P D s0).1
-      generalize hpe : pondEvap P esPot S.pond (evapRefresh P D s0).1 = pe at h q1 q2 q3
+      obtain ⟨q1, q2, q3, q4⟩ := pondEvap_spec P esPot S.pond (evapRefresh P D s0).1
+      generalize hpe : pondEvap P esPot S.pond (evapRefresh P D s0).1 = pe at h q1 q2 q3 q4
       obtain ⟨e0, pond', s2, b3⟩ := pe
-      simp only [] at h q1 q2 q3
+      simp only [] at h q1 q2 q3 q4
       generalize hs1 : evapStage1 F P cells s2 esPot e0 = r1 at h
       cases r1 with
       | error e => simp at h
@@ -476,16 +543,16 @@ theorem soilEvap_core (F : Fn α) (P : EvapParams α) (S : EvapState α) (cells 
           obtain ⟨a1, a2, a3, a4, a5, a6, a7⟩ := evapStage1_spec F P cells s2 esPot e0 g1 hs1 hp
           have hp1 : PosDz g1.cells := PosDz.of_frame a1 hp
           obtain ⟨c1, c2, c3, c4, c5⟩ := evapStage2_spec F P g1 g2 hs2 hp1
-          refine ⟨c1.trans a1, by linarith, trivial, ⟨b2, rfl⟩, ?_, ?_, ?_⟩
+          have hn : g2.neg = false := evapStage2_noNeg F P g1 g2 hs2 a5
+          obtain ⟨_, d2, d3⟩ := c5 hn
+          refine ⟨c1.trans a1, by linarith, trivial, ⟨b2, rfl⟩, ?_, hn, ?_, ?_, q4⟩
           · intro hpre
             have := c4 (a4 (q2 hpre))
             linarith
-          · intro hn hpre
-            obtain ⟨_, d2, _⟩ := c5 hn
+          · intro hpre
             have := q3 hpre
             linarith
-          · intro hn hinv
-            obtain ⟨_, _, d3⟩ := c5 hn
+          · intro hinv
             exact d3 (a7 hinv)
 
 /-! ### potential evaporation -/
@@ -716,18 +783,50 @@ theorem soilEvap_esAct_le_esPot_combined (h : soilEvaporation F P S cells D = .o
   ⟨soilEvap_esPot_nonneg F P S cells D out h hp pre,
    soilEvap_esAct_le_esPot F P S cells D out h hp (soilEvap_esPot_nonneg F P S cells D out h hp pre)⟩
 
-/-- 5a. `EsAct ≥ 0`, under the guard "no stage-2 extraction step met a negative available water"
-(ghost output `negTake = false`) -/
-theorem soilEvap_esAct_nonneg_of_guard (h : soilEvaporation F P S cells D = .ok out)
-    (hp : PosDz cells) (hguard : out.negTake = false) (hpot : 0 ≤ out.esPot) : 0 ≤ out.esAct :=
-  (soilEvap_core F P S cells D out h hp).2.2.2.2.2.1 hguard (fun _ => hpot)
+/-- the ghost flag "some extraction step took a negative amount" is never set (it could be, in
+stage 2, before repo fix 9c2fed8) -/
+theorem soilEvap_negTake_false (h : soilEvaporation F P S cells D = .ok out) (hp : PosDz cells) :
+    out.negTake = false :=
+  (soilEvap_core F P S cells D out h hp).2.2.2.2.2.1
 
-/-- 5b. the water contents stay within `[th_dry, th_s]` (and the rest of `Cell.Inv`), under the
-same guard -/
-theorem soilEvap_inv_of_guard (h : soilEvaporation F P S cells D = .ok out)
-    (hinv : ∀ x ∈ cells, Cell.Inv x) (hguard : out.negTake = false) :
-    ∀ x ∈ out.cells, Cell.Inv x :=
-  (soilEvap_core F P S cells D out h (PosDz.of_inv hinv)).2.2.2.2.2.2 hguard hinv
+/-- 5a. `EsAct ≥ 0` (unconditional since stage 2 clamps `AvW` at 0; the premise on `EsPot` is
+needed only when the ponded water exceeds `EsPot`, where `EsAct = EsPot`) -/
+theorem soilEvap_esAct_nonneg' (h : soilEvaporation F P S cells D = .ok out) (hp : PosDz cells)
+    (hpot : out.esPot < S.pond → 0 ≤ out.esPot) : 0 ≤ out.esAct :=
+  (soilEvap_core F P S cells D out h hp).2.2.2.2.2.2.1 hpot
+
+theorem soilEvap_esAct_nonneg (h : soilEvaporation F P S cells D = .ok out) (hp : PosDz cells)
+    (hpot : 0 ≤ out.esPot) : 0 ≤ out.esAct :=
+  soilEvap_esAct_nonneg' F P S cells D out h hp (fun _ => hpot)
+
+/-- 5b. the water contents stay within `[th_dry, th_s]` (and the rest of `Cell.Inv`) -/
+theorem soilEvap_inv (h : soilEvaporation F P S cells D = .ok out)
+    (hinv : ∀ x ∈ cells, Cell.Inv x) : ∀ x ∈ out.cells, Cell.Inv x :=
+  (soilEvap_core F P S cells D out h (PosDz.of_inv hinv)).2.2.2.2.2.2.2.1 hinv
+
+/-- 6. ponded water never becomes negative, and only decreases — the latter needs `0 ≤ EsPot`
+(with `EsPot < 0 < pond` the Python *adds* `−EsPot` to the ponded water) -/
+theorem soilEvap_pond' (h : soilEvaporation F P S cells D = .ok out) (hp : PosDz cells)
+    (hpond : 0 ≤ S.pond) : 0 ≤ out.pond ∧ (0 ≤ out.esPot → out.pond ≤ S.pond) :=
+  (soilEvap_core F P S cells D out h hp).2.2.2.2.2.2.2.2 hpond
+
+theorem soilEvap_pond (h : soilEvaporation F P S cells D = .ok out) (hp : PosDz cells)
+    (hpond : 0 ≤ S.pond) (hpot : 0 ≤ out.esPot) : 0 ≤ out.pond ∧ out.pond ≤ S.pond :=
+  ⟨(soilEvap_pond' F P S cells D out h hp hpond).1,
+   (soilEvap_pond' F P S cells D out h hp hpond).2 hpot⟩
+
+/-- everything together under the sign premises of `EsPotPre` -/
+theorem soilEvap_all (h : soilEvaporation F P S cells D = .ok out)
+    (hinv : ∀ x ∈ cells, Cell.Inv x) (pre : EsPotPre P S D) (hpond : 0 ≤ S.pond) :
+    0 ≤ out.esAct ∧ out.esAct ≤ out.esPot ∧ 0 ≤ out.pond ∧ out.pond ≤ S.pond ∧
+    (∀ x ∈ out.cells, Cell.Inv x) ∧
+    storage out.cells + out.pond + out.esAct = storage cells + S.pond := by
+  have hp := PosDz.of_inv hinv
+  have hpot := soilEvap_esPot_nonneg F P S cells D out h hp pre
+  obtain ⟨p1, p2⟩ := soilEvap_pond F P S cells D out h hp hpond hpot
+  exact ⟨soilEvap_esAct_nonneg F P S cells D out h hp hpot,
+    soilEvap_esAct_le_esPot F P S cells D out h hp hpot, p1, p2,
+    soilEvap_inv F P S cells D out h hinv, soilEvap_balance F P S cells D out h hp⟩
 
 end Main
 
@@ -745,9 +844,9 @@ theorem evapLayerWater_error (cells : List (Cell α)) (z : α) (e : String)
   | none => simp only [Except.error.injEq] at h; exact h.symm
   | some a => simp at h
 
-theorem extractLoop_error (cl : Bool) (z : α) (n : Nat) :
+theorem extractLoop_error (z : α) (n : Nat) :
     ∀ (cs : List (Cell α)) (a : ExtAcc α) (e : String),
-    extractLoop cl z n cs a = .error e → e = "E:index" := by
+    extractLoop z n cs a = .error e → e = "E:index" := by
   induction n with
   | zero => intro cs a e h; simp [extractLoop] at h
   | succ n ih =>
@@ -759,7 +858,7 @@ theorem extractLoop_error (cl : Bool) (z : α) (n : Nat) :
       | nil => simp only [Except.error.injEq] at h; exact h.symm
       | cons x xs =>
         simp only [] at h
-        generalize hr : extractLoop cl z n xs _ = r at h
+        generalize hr : extractLoop z n xs _ = r at h
         cases r with
         | error e' =>
           simp only [Except.error.injEq] at h
@@ -848,12 +947,12 @@ theorem stage2Step_noFuel (F : Fn α) (P : EvapParams α) (w2 edt : α) (st : Su
         · simp only [Except.ok.injEq, Prod.mk.injEq] at hex
           exact hex.1 ▸ le_refl _
       simp only []
-      generalize hr : extractLoop false z _ st.cells _ = r
+      generalize hr : extractLoop z _ st.cells _ = r
       cases r with
       | error e' =>
         refine ⟨fun e h => ?_, fun st' h => by simp at h⟩
         simp only [Except.error.injEq] at h
-        subst h; exact extractLoop_error _ _ _ _ _ _ hr
+        subst h; exact extractLoop_error _ _ _ _ _ hr
       | ok v =>
         obtain ⟨cs1, a1⟩ := v
         refine ⟨fun e h => by simp at h, fun st' h => ?_⟩
@@ -905,12 +1004,12 @@ theorem evapStage1_evapZ (F : Fn α) (P : EvapParams α) (cells : List (Cell α)
   simp only []
   by_cases h1 : 0 < pmin (esPot - esAct) s.wSurf
   · simp only [h1, if_true]
-    generalize hr : extractLoop true P.zMin _ cells _ = r
+    generalize hr : extractLoop P.zMin _ cells _ = r
     cases r with
     | error e' =>
       refine ⟨fun e h => ?_, fun g h => by simp at h⟩
       simp only [Except.error.injEq] at h
-      subst h; exact extractLoop_error _ _ _ _ _ _ hr
+      subst h; exact extractLoop_error _ _ _ _ _ hr
     | ok v =>
       obtain ⟨cs1, a1⟩ := v
       simp only []
@@ -1053,7 +1152,7 @@ def Sq : EvapState ℚ :=
 def Dq : EvapDay ℚ := { tsc := 5, et0 := 5, infl := 0, rain := 0, irr := 0, growingSeason := true }
 
 /-- the call succeeds with stage 1 → stage-2 preparation → stage 2 (branch mask 512+1024+2048),
-the guard holds and `0 < EsAct < EsPot` -/
+`negTake = false` and `0 < EsAct < EsPot` -/
 theorem runs :
     (match soilEvaporation Fq Pq Sq cellsq Dq with
      | .ok out => decide (out.negTake = false ∧ out.branch = 3584 ∧ 0 < out.esAct ∧
